@@ -126,3 +126,19 @@ func VH_C19_listeners_stream() {
 	verifQuiesce()
 	verifReach("C19.listeners.stream.done", true)
 }
+
+// verifParStart runs fs as goroutines released together and waits for them
+func verifParStart(start chan struct{}, fs ...func()) {
+	var wg sync.WaitGroup
+	for _, f := range fs {
+		wg.Add(1)
+		f := f
+		go func() {
+			defer wg.Done()
+			<-start
+			f()
+		}()
+	}
+	close(start)
+	wg.Wait()
+}
